@@ -728,6 +728,13 @@ func (db *DB) searchAll(o Object, field, operator string, value interface{}, con
 		return &Search{db: db, err: err}
 	}
 
+	// an unknown operator is an error, as it is on an indexed field
+	switch operator {
+	case "=", "!=", "<", "<=", ">", ">=", "~=":
+	default:
+		return &Search{db: db, err: fmt.Errorf("%w %s", ErrUnkownSearchOperator, operator)}
+	}
+
 	// an invalid pattern is an error, as it is on an indexed field
 	if pattern, ok := search.Value.(string); ok && operator == "~=" {
 		if _, err = regexp.Compile(pattern); err != nil {
